@@ -63,9 +63,20 @@ where
 
     fn call(&mut self, req: http::request::Parts) -> Self::Future {
         let config = self.config.clone();
-        let Some(host) = req.uri.host().map(String::from) else {
+        // IPv6 literals are bracketed in a URI, but not in a TLS server name.
+        let Some(host) = req
+            .uri
+            .host()
+            .map(|host| host.trim_start_matches('[').trim_end_matches(']'))
+            .map(String::from)
+        else {
             return future::TlsConnectionFuture::error(TlsConnectionError::NoDomain);
         };
+
+        // Not every host which is valid in a URI is a valid TLS server name.
+        if rustls::pki_types::ServerName::try_from(host.as_str()).is_err() {
+            return future::TlsConnectionFuture::error(TlsConnectionError::NoDomain);
+        }
 
         let future = self.transport.connect(req);
 
